@@ -1,9 +1,47 @@
 (* C10 — mh_sha1_murmur3_x64_128 returns both digests as if computed separately.
-   This file contains only statements, each closed by an already-proved lemma. *)
+   This file contains only statements, each closed by an already-proved lemma.
+
+   L0: Spec/MH.v mh_sha1, Spec/Murmur3.v murmur3_x64_128 (both state words start as the seed).
+   L1: Model/MhMurmur.v mhm_* : the update template of mh_sha1_murmur3_x64_128_update_base.c with the
+       stitched block function (16 SHA-1 lanes and 64 murmur blocks per 1024-byte block), and
+       the finalize of .._finalize_base.c (remaining whole murmur blocks of the partial buffer, murmur
+       tail of total mod 16 bytes with the total length, then the mh_sha1 tail). *)
 From Coq Require Import NArith List Arith Lia.
-From ISAL Require Import Base.Words Base.ListUtil Spec.MD Spec.SHA1 Spec.MH Spec.Murmur3 Model.MhCtx Model.MhMurmur.
+From ISAL Require Import Base.Words Base.ListUtil Spec.MD Spec.SHA1 Spec.MH Spec.Murmur3
+  Model.MhCtx Model.MhMurmur Proofs.MhFacts Proofs.MhInst Proofs.MhMurmurFacts.
 Import ListNotations.
 
-Example C10_nonvacuous_placeholder :
-  mhm_run 7 [[1;2;3]%N; []; [4]%N] = (mh_sha1 [1;2;3;4]%N, murmur3_x64_128 7 [1;2;3;4]%N).
-Proof. vm_compute. reflexivity. Qed.
+(* every seed (the library takes a uint64_t; the model and the spec both reduce it mod 2^64),
+   every stream shorter than 2^32 bytes, every partition into update calls *)
+Theorem C10_stitched_eq_pair : forall (seed : N) (segs : list (list N)),
+  (N.of_nat (length (concat segs)) < 2 ^ 32)%N ->
+  mhm_finalize (fold_left mhm_update segs (mhm_init seed))
+  = (mh_sha1 (concat segs), murmur3_x64_128 seed (concat segs)).
+Proof. exact mhm_run_correct. Qed.
+Print Assumptions C10_stitched_eq_pair.
+
+Theorem C10_split_independent : forall (seed : N) (segsA segsB : list (list N)),
+  concat segsA = concat segsB -> (N.of_nat (length (concat segsA)) < 2 ^ 32)%N ->
+  mhm_run seed segsA = mhm_run seed segsB.
+Proof. exact mhm_run_split_independent. Qed.
+Print Assumptions C10_split_independent.
+
+(* the murmur half of the stitched block function: 64 murmur blocks per multi-hash block, over
+   k multi-hash blocks, is the plain murmur body over all 64 k blocks *)
+Theorem C10_murmur_body_is_a_fold : forall (k : nat) (body : list N) (h : N * N),
+  length body = k * 1024 ->
+  fold_left (fun h blk => mhm_mur_blocks h blk (MH_BLOCK / 16)) (chunks 1024 body) h
+  = fold_left mur_body (chunks 16 body) h.
+Proof. exact mhm_mur_blocks_fold. Qed.
+Print Assumptions C10_murmur_body_is_a_fold.
+
+(* non-vacuity: seed 0x9747b28c, 1030 pattern bytes fed as 1000 + 24 + 0 + 6 (length mod 16 = 6,
+   one whole multi-hash block): hypothesis met, both digests as the built library returns them *)
+Example C10_nonvacuous :
+  let stream := mh_pat_from 1030 3 in
+  let segs := [firstn 1000 stream; firstn 24 (skipn 1000 stream); []; skipn 1024 stream] in
+  concat segs = stream /\ (N.of_nat (length (concat segs)) < 2 ^ 32)%N /\
+  mhm_finalize (fold_left mhm_update segs (mhm_init 0x9747b28c))
+    = ([0x86711483; 0x1075c6b4; 0x90de19b8; 0xe171bf1d; 0x747f6369]%N, (0xbaac8bccd39fd37a, 0xfcd2ca897748b8cc)%N) /\
+  murmur3_x64_128 0x9747b28c stream = (0xbaac8bccd39fd37a, 0xfcd2ca897748b8cc)%N.
+Proof. vm_compute. repeat split; reflexivity. Qed.
